@@ -306,7 +306,7 @@ func (d *DB) Get(table *string, key Item, consistent *bool, proj *string, names 
 	return nil, nil
 }
 
-// Query implements Query for a key condition `<hash> = :v` (optionally `AND <range> = :w`).
+// Query implements Query for a key condition `<hash> = :v`.
 func (d *DB) Query(table *string, keyCond *string, names map[string]string, values Item, consistent *bool,
 	forward *bool, limit *int64, proj *string) ([]Item, *Err) {
 	t, err := d.table(table)
@@ -321,8 +321,9 @@ func (d *DB) Query(table *string, keyCond *string, names map[string]string, valu
 	}
 	var hashV *AV
 	var rangeV *AV
-	for _, part := range strings.Split(*keyCond, " AND ") {
-		lr := strings.Split(part, " = ")
+	{
+		// supported: `<hash key> = :value` (exactly what the metastores send; mirrors the Lean model)
+		lr := strings.Split(*keyCond, " = ")
 		if len(lr) != 2 {
 			return nil, &Err{Validation, "unsupported KeyConditionExpression " + *keyCond}
 		}
@@ -334,14 +335,10 @@ func (d *DB) Query(table *string, keyCond *string, names map[string]string, valu
 		if !ok {
 			return nil, &Err{Validation, "undefined value " + lr[1]}
 		}
-		switch n {
-		case t.HashKey:
-			hashV = &v
-		case t.RangeKey:
-			rangeV = &v
-		default:
-			return nil, &Err{Validation, "key condition on non-key attribute " + n}
+		if n != t.HashKey {
+			return nil, &Err{Validation, "key condition must test the hash key, not " + n}
 		}
+		hashV = &v
 	}
 	if hashV == nil || hashV.Kind != "S" {
 		return nil, &Err{Validation, "key condition must test the hash key for equality with a string"}
